@@ -166,8 +166,10 @@ def validate(v, prop, files, invs, tag):
         if r.ok:
             continue
         if r.violated:
+            if len(v.violations) >= 5:
+                continue
             st = r.alias_state()
-            m = re.search(r"line \|-> (\d+)", st)
+            m = re.search(r"\bline = (\d+)", st)
             line = int(m.group(1)) if m else 0
             hdr, evs = find_run(f, line) if line else ({}, [])
             run_id = evs[0].get("run") if evs else "?"
